@@ -63,6 +63,7 @@ struct Scn {
     bool multi_piece_framing = false;    // chunked transfer framing with more than one HTTP chunk
     std::string expect;                  // mode 0/1: exact delivered bytes
     std::vector<std::string> later_stages; // mode 0: stages deeper than the expected one (must never be what is delivered)
+    std::string label_extra;
     std::string label;                   // class label for evidence, e.g. "gzip,deflate_raw/chunked"
     std::vector<size_t> cuts;
 };
@@ -183,9 +184,10 @@ static Scn gen_bomb(bool thorough) {
     int nl = s.dir == 0 ? rcx::range(1, 3) : 1; s.layer_limit = nl > 2 ? 3 : (rcx::coin() ? -2 : 0);
     static const size_t SZ[] = {70000, 300000, 2500000, 9000000, 40000000}; size_t n = SZ[rcx::range(0, thorough ? 4 : 3)];
     std::string body(n, rcx::coin() ? '\0' : 'A'); std::string ce;
-    for (int j = 0; j < nl; j++) { int k = rcx::range(0, 2); body = k == K_GZIP ? zpack(body, 31, 9, 0) : k == K_DEFLATE_RAW ? zpack(body, -15, 9, 0) : zpack(body, 15, 9, 0); ce = std::string(k == K_GZIP ? "gzip" : "deflate") + (ce.empty() ? "" : ",") + ce; }
+    if (nl == 1 && C07_HAVE_LZMA && n <= 9000000 && rcx::chance(1, 4)) { body = lzpack(body, 65536); ce = "lzma"; s.label_extra = "_lzma"; } // LZMA reaches far higher ratios than deflate
+    else for (int j = 0; j < nl; j++) { int k = rcx::range(0, 2); body = k == K_GZIP ? zpack(body, 31, 9, 0) : k == K_DEFLATE_RAW ? zpack(body, -15, 9, 0) : zpack(body, 15, 9, 0); ce = std::string(k == K_GZIP ? "gzip" : "deflate") + (ce.empty() ? "" : ",") + ce; }
     build_streams(s, ce, body, rcx::range(0, s.dir == 0 ? 2 : 1));
-    s.label = "bomb_" + std::to_string(nl) + "_layers" + (s.dir ? "/request" : "/response");
+    s.label = "bomb_" + std::to_string(nl) + "_layers" + s.label_extra + (s.dir ? "/request" : "/response");
     return s;
 }
 
